@@ -77,6 +77,15 @@ Theorem custody_delegation c d m ops id :
   stake_of (run c (init d m) ops) id + total deleg_out c (init d m) ops id = total deleg_in c (init d m) ops id.
 Proof. pose proof (custody_delegation_hist c (init d m) ops id (Full_init d m)) as H. exact H. Qed.
 
+(* never twice: from any state reached by a history, a WithdrawStake that follows a successful WithdrawStake of the same
+   validation (with no operation in between) pays 0 *)
+Theorem second_withdraw_pays_nothing c d m ops a e s1 x s2 s3 y :
+  let s := run c (init d m) ops in
+  withdraw_stake c a e s = Ok (s1, x) -> pay_out x s1 = Ok s2 -> withdraw_stake c a e s2 = Ok (s3, y) -> y = 0.
+Proof.
+  cbv zeta. destruct (history_FullInv c d m ops) as [la [lq HF]]. exact (second_withdraw_pays_zero c a e _ s1 x s2 s3 y la lq HF).
+Qed.
+
 (* one step, from any state reached by a history: the ledger equation for every operation incl. blocks *)
 Theorem custody_every_step c d m ops o a :
   let s := run c (init d m) ops in
@@ -118,6 +127,27 @@ Example ex_custody_nontrivial :
   (total paid_in ex_cfg (init 7 3) ex_ops 162, total paid_out ex_cfg (init 7 3) ex_ops 162, held_by (run ex_cfg (init 7 3) ex_ops) 162,
    total paid_in ex_cfg (init 7 3) ex_ops 161, held_by (run ex_cfg (init 7 3) ex_ops) 161) = (30000000, 30000000, 0, 25000000, 25000000).
 Proof. vm_compute. reflexivity. Qed.
+(* a PoS history: two validators activated at block 4, a delegation, an exit signalled at block 5 and executed at block 12,
+   a withdrawal during the cooldown (pays 0), one after it (pays the whole stake), a second one (pays 0); the delegation is
+   withdrawn after the exit (pays its stake) and once more (pays 0) *)
+Definition pos_cfg : cfg := mkC 4 8 12 16 4 8 8 0 0.
+Definition pos_ops : list op :=
+  [OAddValidation 161 57505 8 25000000; OAddValidation 162 57506 8 26000000] ++ repeat OBlock 5 ++
+  [OAddDeleg 161 1000 200; OSignalExit 161 57505] ++ repeat OBlock 8 ++ [OWithdraw 161 57505] ++ repeat OBlock 3 ++
+  [OWithdraw 161 57505; OWithdraw 161 57505; OWithdrawDeleg 1; OWithdrawDeleg 1].
+Example ex_pos_history :
+  let s := run pos_cfg (init 0 2) pos_ops in
+  (blk s, l_size (act s), total paid_in pos_cfg (init 0 2) pos_ops 161, total paid_out pos_cfg (init 0 2) pos_ops 161, held_by s 161,
+   total deleg_in pos_cfg (init 0 2) pos_ops 1, total deleg_out pos_cfg (init 0 2) pos_ops 1, stake_of s 1, g_lv s, g_cd s, g_wd s) =
+  (16, 1, 25000000, 25000000, 0, 1000, 1000, 0, 26000000, 0, 0).
+Proof. vm_compute. reflexivity. Qed.
+Example ex_pos_withdraw_answers :
+  let s13 := run pos_cfg (init 0 2) (firstn 17 pos_ops) in
+  let s16 := run pos_cfg (init 0 2) (firstn 21 pos_ops) in
+  (blk s13, answer pos_cfg s13 (OWithdraw 161 57505), blk s16, answer pos_cfg s16 (OWithdraw 161 57505),
+   answer pos_cfg (step pos_cfg s16 (OWithdraw 161 57505)) (OWithdraw 161 57505)) = (13, (0, 0), 16, (0, 25000000), (0, 0)).
+Proof. vm_compute. reflexivity. Qed.
+
 Example ex_hyps_hold : exists lq, WF (init 7 3) [] lq /\ Inv1 (init 7 3) /\ InvA (init 7 3).
 Proof. destruct (InvAll_init 7 3) as [la [lq [H1 [H2 H3]]]]. exists []. split; [|split]; auto.
   constructor; [constructor; cbn; auto; constructor|constructor; cbn; auto; constructor|intros a v H; discriminate]. Qed.
@@ -129,6 +159,7 @@ Print Assumptions custody.
 Print Assumptions custody_never_more_out_than_in.
 Print Assumptions custody_delegation.
 Print Assumptions custody_every_step.
+Print Assumptions second_withdraw_pays_nothing.
 Print Assumptions counters_sum_initial.
 Print Assumptions counters_sum_every_user_operation.
 Print Assumptions counters_sum_between_epochs.
